@@ -33,6 +33,9 @@ def classify(c):
     return c.get("stream", "?") + ":" + c["e"][0] + (":" + c["e"][1] if c["e"][0] in ("o1", "o2") else "")
 
 
+RUN_IMPORTS = "Derived"
+
+
 def nontrivial(c, obs):
     if not obs or obs[0] != 1:
         return False
@@ -84,6 +87,15 @@ def gen_cases(tier, seed):
         g = G.Gen(rng, sigs, maxw=maxw, maxtotal=48 if maxw <= 8 else 120)
         e = g.expr(rng.randrange(1, 5 if not thorough else 7))
         cases.append({"stream": "rnd", "sigs": sigs, "e": e, "stims": G.stimuli(rng, sigs, 6)})
+    # derived operators (abs, shifts/rotates by constants, replicate, matches, indexing/slicing, Mux, Array)
+    D = 1500 if not thorough else 30000
+    for i in range(D):
+        sigs = [G.rand_shape(rng, 6) for _ in range(rng.randrange(1, 4))]
+        g = G.Gen(rng, sigs, maxw=6, maxtotal=40, derived=True)
+        e = g.derived_node(rng.randrange(1, 3)) if i % 2 else g.expr(rng.randrange(1, 4))
+        if G.pyshape(e, sigs)[0] > 64:
+            continue
+        cases.append({"stream": "der", "sigs": sigs, "e": e, "stims": G.stimuli(rng, sigs, 6)})
     # malformed
     M = 400 if not thorough else 5000
     for i in range(M):
